@@ -42,4 +42,4 @@ CLAIMED = {
 
 NOT_APPLICABLE = {}
 
-FIX_COMMITS = ["6505037", "37050b8", "33dee10", "d99d4dd", "4f7666c", "028434d", "395087d", "d475015", "054609b", "c1a2672", "079fb2a", "e434baf", "260aa11", "297c1aa", "5c15583", "10b6b5d"]
+FIX_COMMITS = ["6505037", "37050b8", "33dee10", "d99d4dd", "4f7666c", "028434d", "395087d", "d475015", "054609b", "c1a2672", "079fb2a", "e434baf", "260aa11", "297c1aa", "754d171", "7aab489", "88e1e6d", "586d727", "669834d", "5c15583", "10b6b5d"]
